@@ -32,8 +32,10 @@ func (n *Extension) Negotiate(opt httphead.Option) (accept httphead.Option, err 
 	if n.accepted {
 		// Negotiate might be called multiple times during upgrade.
 		// We stick to first one accepted extension since they must be passed
-		// in ordered by preference.
-		return accept, nil
+		// in ordered by preference. Though, a malformed offer is an error
+		// wherever it stands in the list.
+		var p Parameters
+		return accept, p.Parse(opt)
 	}
 
 	want := n.Parameters
